@@ -29,7 +29,7 @@ def events_check(prop):
             _run(prop, "ops5-dev3-cb2", "thorough", 5, 3, 2, 2, 0.6),
             _run(prop, "ops4-dev2-cb3", "thorough", 4, 2, 3, 2, 0.95),
         ],
-        deadline=dict(quick=110, thorough=2400),
+        deadline=dict(quick=150, thorough=2400),
         bounds=dict(quick="union of three exhaustive explorations with 2 descriptors: (<=5 main-context operations, <=2 deviations, <=1 callback action), (<=4, <=2, <=2), (<=5, <=1, <=2)",
                     thorough="union of five exhaustive explorations: (<=6 ops, <=2 deviations, <=2 callback actions, 2 descriptors), (5,2,2) with 3 descriptors, (7,2,1), (5,3,2), (4,2,3)"),
         assumptions=["poll(2), clock_gettime(2) replaced by the harness (link-time interposition)",
